@@ -87,8 +87,12 @@ func (x *Exec) translateObligation(ob *Obligation) (q *Query) {
 			goal = Implies(ob.guard, *ob.ground)
 		}
 		lines = append([]string{}, sub.lines...)
+		seenFact := map[string]bool{}
 		for _, f := range facts {
-			lines = append(lines, "(assert "+f.S+")")
+			if !seenFact[f.S] {
+				seenFact[f.S] = true
+				lines = append(lines, "(assert "+f.S+")")
+			}
 		}
 		for _, h := range hs {
 			if h.S != "true" {
